@@ -1143,7 +1143,8 @@ impl<'a, 'b, W: Write> Serializer for &'a mut YamlSerializer<'b, W> {
     }
 
     fn serialize_char(self, v: char) -> Result<()> {
-        self.write_space_if_pending()?;
+        // `serialize_str` writes the deferred space after ':' itself and needs to know that it
+        // is in value position (indentation of a block scalar body).
         let mut buf = [0u8; 4];
         self.serialize_str(v.encode_utf8(&mut buf))
     }
